@@ -20,6 +20,11 @@ def run():
         rep.merge_counts(r['out']); cands += r['cands']
         for s in r['out'].get('stubs', []):
             if 'stub: ' + s not in rep.assumptions: rep.assumptions.append('stub: ' + s)
+    # premise of the per-instruction simulation: emission is a function of the current instruction alone (MIR of jit_compile, every accepted opcode)
+    import jitcontext
+    o3, c3, notes = jitcontext.run([o for o in spec.VERIFIER_OK if spec.classify(o)[0] not in ('call', 'exit')], ('C03',), timeout, 'jit-program')
+    rep.merge_counts(o3); cands += c3; rep.machinery_errors += notes
+    rep.extra['context_freedom_opcodes'] = o3.get('programs', 0)
     out2, c2 = jitwhole.run_families(t, timeout, ('F2', 'F3', 'F5', 'F1w'))
     rep.merge_counts(out2); cands += c2
     ops = sorted(set(spec.opname(i[0]) for i in insts))
@@ -31,6 +36,7 @@ def run():
         'per-instruction simulation under the register map r0..r10 -> rax,rdi,rsi,rdx,r9,r8,rbx,r13,r14,r15,rbp; RSP, the packet pointer register r10 and r12 must be preserved by every instruction; rcx and r11 are scratch',
         'x86-64 semantics table of engine/x86sym.py (only the encodings the JIT emits; anything else is reported as undecodable, exit 2)',
         'r1-r5 after a helper call are outside the claim; local calls and exit are covered by C07, the helper ABI by C08, prologue context by C09',
+        'context-freedom premise: shown per opcode on the MIR of jit_compile (no program byte outside the current instruction flows into one iteration); where it fails, context programs are validated whole',
         'lifting to whole programs: induction on executed instructions using the simulation relation plus the jump-resolution obligations of the control-flow family (paper step)']
     rep.bounds = dict(instances=len(insts), register_pairs='covering set' if t == 'quick' else 'all dst x src', immediates='code-derived classes', offsets='code-derived classes',
                       operand_values='all 64-bit register and memory contents (symbolic)', per_query_timeout_ms=timeout)
